@@ -770,6 +770,107 @@ async def real_end_to_end(kind: str, msgs: list[bytes], mode: str, tmpdir: str, 
     return out
 
 
+async def real_two_clients(kind: str, msgs_a: list[bytes], msgs_b: list[bytes], tmpdir: str) -> list[dict[str, Any]]:
+    """Two client transports connected AT THE SAME TIME to one server transport started through its own run():
+    each peer must get exactly the replies to its own requests (the reply direction of each connection is one
+    trace).  Requests alternate A, B, A, B ...; the contents of the two clients are disjoint."""
+    from gallia.services.uds.server import UnixUDSServerTransport
+
+    downs = {"A": Rec([echo_reply(m) for m in msgs_a]), "B": Rec([echo_reply(m) for m in msgs_b])}
+    owner = {bytes(m): "A" for m in msgs_a} | {bytes(m): "B" for m in msgs_b}
+    srv = RecordingServerTransport(lambda raw: None)
+    order: list[str] = []
+
+    def hook_writer(w: Any, rec: Rec) -> None:
+        orig = w.write
+
+        def wr(data: bytes) -> None:
+            if rec.open_send is not None:
+                rec.ev[rec.open_send]["n"] += len(data)
+            else:
+                rec.note("bytes-written-outside-a-message")
+            orig(data)
+
+        w.write = wr
+
+    def on_respond() -> None:
+        who = owner.get(bytes(srv.server.current_raw), "A")  # type: ignore[attr-defined]
+        for r in downs.values():
+            r.open_send = None
+        _hand_over(downs[who], echo_reply(srv.server.current_raw))  # type: ignore[attr-defined]
+
+    srv.server.on_respond = on_respond  # type: ignore[attr-defined]
+
+    async def handler(r: asyncio.StreamReader, w: asyncio.StreamWriter) -> None:
+        who = "AB"[len(order)] if len(order) < 2 else "B"
+        order.append(who)
+        hook_writer(w, downs[who])
+        try:
+            await type(srv).handle_client(srv, r, w)
+        except Exception as e:  # noqa: BLE001
+            downs[who].note("handle_client-raised:" + type(e).__name__)
+        finally:
+            w.close()
+
+    srv.handle_client = handler  # type: ignore[method-assign]
+    path = os.path.join(tmpdir, f"t{len(os.listdir(tmpdir))}.sock")
+    if kind == "tcp":
+        import socket as _socket
+
+        with _socket.socket() as probe:
+            probe.bind(("127.0.0.1", 0))
+            uri = f"tcp-lines://127.0.0.1:{probe.getsockname()[1]}"
+        srv.target = TargetURI(uri)
+        run_task = asyncio.ensure_future(TCPUDSServerTransport.run(srv))
+    else:
+        uri = f"unix-lines://{path}"
+        srv.target = TargetURI(uri)
+        run_task = asyncio.ensure_future(UnixUDSServerTransport.run(srv))  # type: ignore[arg-type]
+    trs: dict[str, Any] = {}
+    try:
+        for who in ("A", "B"):
+            for _ in range(200):
+                try:
+                    trs[who] = await CLS[kind].connect(uri, timeout=10.0)
+                    break
+                except (ConnectionRefusedError, FileNotFoundError):
+                    await asyncio.sleep(0.05)
+            if who not in trs:
+                raise Machinery("two clients: the server transport's run() never listened")
+            instrument_reader(trs[who].reader, on_feed=downs[who].feed, on_eof=downs[who].close)
+            await asyncio.sleep(0.05)  # the server accepts A before B connects
+
+        async def read_one(who: str) -> None:
+            rec = downs[who]
+            rec.begin(int(E2E_READ_TO_S * 1000))
+            try:
+                data = await trs[who].read(timeout=E2E_READ_TO_S)
+            except asyncio.TimeoutError:
+                rec.end("Timeout")
+                return
+            except Exception as e:  # noqa: BLE001
+                rec.note("error:" + type(e).__name__)
+                rec.end("Error")
+                return
+            rec.end("Msg" if data else "Empty", data)
+
+        for ma, mb in zip(msgs_a, msgs_b):
+            await trs["A"].write(ma, timeout=E2E_READ_TO_S)
+            await trs["B"].write(mb, timeout=E2E_READ_TO_S)
+            await read_one("A")
+            await read_one("B")
+    finally:
+        for tr in trs.values():
+            await _quiet_close(tr)
+        run_task.cancel()
+        try:
+            await run_task
+        except (asyncio.CancelledError, Exception):  # noqa: BLE001
+            pass
+    return [{"kind": f"real-two-clients-{kind}-{who}", "ev": rec.ev, "rb": rec.rb, "tab": rec.tab, "wire": b"",
+             "notes": rec.notes, "replies": [], "outcomes": rec.outcomes()} for who, rec in downs.items()]
+
+
 async def _quiet_close(tr: Any) -> None:
     """close() of the transport under test; a reset by the (already gone) peer is not an observation."""
     try:
